@@ -67,11 +67,11 @@ type ment struct {
 
 // labels collected while a history runs (evidence classes, NT rule).
 type labels struct {
-	growth, chain2, chain3, evict, evictFirstEnd, evictLastEnd, evictAfterGrowth bool
-	setMaxMid, setMaxBelow, removeMid, removeChain, sortAny, sortAfterRemove     bool
-	sortFailed, sortTrunc, updateAtFull, moveFirst, moveLast, lruMove, emptyKey, extremeKey  bool
-	negKey, cleared, removedAny, noOverRefused, multiEvict, nullKeyIgnored       bool
-	steps, maxSize                                                               int
+	growth, chain2, chain3, evict, evictFirstEnd, evictLastEnd, evictAfterGrowth            bool
+	setMaxMid, setMaxBelow, removeMid, removeChain, sortAny, sortAfterRemove                bool
+	sortFailed, sortTrunc, updateAtFull, moveFirst, moveLast, lruMove, emptyKey, extremeKey bool
+	negKey, cleared, removedAny, noOverRefused, multiEvict, nullKeyIgnored                  bool
+	steps, maxSize                                                                          int
 }
 
 // htab mirrors the bucket layout (capacity, threshold, chains) for LABELLING
@@ -376,7 +376,8 @@ type inst struct {
 	entries       func(limit int) ([]kv, error)
 	clear         func()
 	sort          func(desc bool)
-	sortFail      func(after int) // ascending sort whose comparator panics at its (after+1)th call
+	sortHook      func(hook func()) // ascending sort whose comparator calls hook first
+	sortFail      func(after int)   // ascending sort whose comparator panics at its (after+1)th call
 	setMax        func(n int)
 	setNone       func(code int64)
 	str           map[string]func() string // toString toFormatString
